@@ -97,6 +97,23 @@ def main(tier: str) -> int:
                 chk.fail("an optimizer run raises after another run of the same class in this process (state leaks between instances)",
                          {"optimizer": cn, **cfg, "error": repr(e)[:200]}, {"target": cn, "clause": "raises"})
                 continue
+            # random numbers consumed, and another optimizer constructed, BETWEEN construction and fit()
+            def between(_k=k, _cn=cn, _cfg=cfg):
+                perturb(2000 + _k)
+                T.build(_cn, dict(_cfg, seed=_cfg["seed"] + 5), T.Recorder(_cn, dict(_cfg)))
+                import thefittest.optimizers as _O
+                _O.GeneticAlgorithm.binary_string_population(5, 7)
+                _O.DifferentialEvolution.float_population(4, -1.0, 1.0, 3)
+            try:
+                e2 = fingerprint(T.record(cn, dict(cfg), between=between))
+            except Exception as e:
+                chk.fail("an optimizer run raises when other optimizers are constructed between its construction and fit()",
+                         {"optimizer": cn, **cfg, "error": repr(e)[:200]}, {"target": cn, "clause": "raises"})
+                e2 = a
+            if a != e2:
+                gen = next((i for i, (x, y) in enumerate(zip(a["snaps"], e2["snaps"])) if x != y), None)
+                chk.fail("a run differs when random numbers are consumed (and another optimizer is constructed) between the optimizer's construction and fit()",
+                         {"optimizer": cn, **cfg, "first_differing_generation": gen}, {"target": cn, "clause": "same_seed_delayed_fit"})
             chk.count(cn)
             d = {"optimizer": cn, **cfg}
             chk.case((cn, str(sorted(cfg.items()))), sample=d if len(chk.samples) < 3 else None)
@@ -183,6 +200,17 @@ def main(tier: str) -> int:
             model = str(est.get_tree()) if hasattr(est, "tree_") else None
             net = est.get_net() if hasattr(est, "net_") else None
             res.append((model, None if net is None else (net._connects.tolist(), [float(w) for w in net._weights]), [str(v) for v in pred]))
+        # the SAME estimator object fitted again (sklearn style re-fit)
+        perturb(91 + len(name))
+        est.fit(X, y)
+        pred = est.predict(X)
+        model = str(est.get_tree()) if hasattr(est, "tree_") else None
+        net = est.get_net() if hasattr(est, "net_") else None
+        refit = (model, None if net is None else (net._connects.tolist(), [float(w) for w in net._weights]), [str(v) for v in pred])
+        if refit != res[0]:
+            chk.fail("re-fitting the same estimator object with the same random_state gives a different model",
+                     {"estimator": name, "same_tree": refit[0] == res[0][0], "same_net": refit[1] == res[0][1], "same_predictions": refit[2] == res[0][2]},
+                     {"target": name, "clause": "same_seed_refit"})
         chk.count(name)
         chk.case((name, "twice"))
         if res[0] != res[1]:
